@@ -17,10 +17,12 @@ CHECKS = {
     "C02": {"level": "exploration", "stages": [("e1", "C02", 40000, 1500000, {}), ("e2", "C02", 4000, 150000, {})]},
     "C03": {"level": "exploration", "stages": [("e1", "C03", 40000, 1500000, {}), ("e2", "C03", 4000, 150000, {})]},
     "C04": {"level": "exploration", "stages": [("e1", "C04", 40000, 1500000, {})]},
-    "C07": {"level": "exploration", "stages": [("e1", "C07", 30000, 1000000, {})]},
+    "C07": {"level": "exploration", "stages": [("e1", "C07", 30000, 1000000, {}), ("e3", "C07", 20000, 600000, {})]},
     "C08": {"level": "exploration", "stages": [("e1", "C08", 30000, 1000000, {})]},
+    "C09": {"level": "exploration", "stages": [("e3", "C09", 40000, 1500000, {}), ("e1", "C09", 20000, 600000, {})]},
     "C10": {"level": "exploration", "stages": [("e1", "C10", 20000, 700000, {})]},
-    "C16": {"level": "exploration", "stages": [("e1", "C16", 30000, 1000000, {})]},
+    "C13": {"level": "exploration", "stages": [("e1c13", "C13", 20000, 700000, {})]},
+    "C16": {"level": "exploration", "stages": [("e1", "C16", 30000, 1000000, {}), ("e3", "C16", 20000, 600000, {})]},
     "C17": {"level": "exploration", "stages": [("e1", "C17", 30000, 1000000, {}), ("e2", "C17", 4000, 150000, {})]},
     "C11": {"level": "exploration", "stages": [("e2", "C11", 8000, 300000, {})]},
     "C12": {"level": "exploration", "stages": [("e2", "C12", 8000, 300000, {})]},
@@ -115,6 +117,7 @@ def main(argv=None):
     ap.add_argument("--no-evidence", action="store_true")
     ap.add_argument("--survey", action="store_true", help="list violation classes of ALL properties, no shrinking")
     ap.add_argument("--param", action="append", default=[], help="developer aid: key=value override of stage params")
+    ap.add_argument("--dump-logs", help="selftest aid: write the ordered list of event-log hashes to this file")
     ap.add_argument("--one", type=int, help="developer aid: execute run index N of the (first/--stage) family and dump it")
     args = ap.parse_args(argv)
     seed = int(os.environ.get("VERIF_SEED", "0") or 0)
@@ -218,7 +221,8 @@ def main(argv=None):
                 continue
             reported.add(cls)
             bad = dict(bad, violations=unknown)
-            best, final, vs, evals = runner.minimise(fam, focus, params, bad, max_evals=300 if tier == "quick" else 800)
+            best, final, vs, evals = runner.minimise(fam, focus, params, bad, max_evals=300 if tier == "quick" else 800,
+                                                        max_seconds=45.0 if tier == "quick" else 240.0)
             v = vs[0] if vs else unknown[0]
             payload = runner.replay_payload(fam, focus, params, bad["seed"], bad["run"], best, final, vs, tier)
             payload["base_seed"] = seed
@@ -228,6 +232,9 @@ def main(argv=None):
             violation_lines.append((f"VIOLATION property={prop} replay={path}", v))
             rc = 1
     wall = time.time() - t0
+    if args.dump_logs:
+        with open(args.dump_logs, "w") as fh:
+            json.dump([x for t in totals for x in t["log"]], fh)
     for l in known_lines:
         print(l)
     for l, v in violation_lines:
